@@ -37,6 +37,10 @@ THE SOFTWARE.
 #include <amgcl/backend/builtin_hybrid.hpp>
 #include <amgcl/util.hpp>
 
+#ifdef AMGCL_VERIF
+namespace amgcl { namespace verif { struct access; } }
+#endif
+
 namespace amgcl {
 namespace relaxation {
 namespace detail {
@@ -194,6 +198,9 @@ class ilu_solve< backend::builtin<value_type, col_type, ptr_type> > {
             return b;
         }
 
+#ifdef AMGCL_VERIF
+    friend struct amgcl::verif::access;
+#endif
     private:
         static int num_threads() {
 #ifdef _OPENMP
